@@ -32,7 +32,7 @@ pub mod mapref {
         pub use crate::RefMulti;
     }
     pub mod entry {
-        pub use crate::{Entry, OccupiedEntry, VacantEntry};
+        pub use crate::Entry;
     }
 }
 
@@ -76,37 +76,20 @@ impl<'a, K, V> Iterator for Iter<'a, K, V> {
 }
 impl<'a, K, V> Drop for Iter<'a, K, V> { fn drop(&mut self) { self.cnt.set(self.cnt.get() - 1); } }
 
-pub enum Entry<'a, K, V, S = RandomState> { Occupied(OccupiedEntry<'a, K, V, S>), Vacant(VacantEntry<'a, K, V, S>) }
-pub struct OccupiedEntry<'a, K, V, S = RandomState> { map: &'a DashMap<K, V, S>, key: K, idx: usize }
-pub struct VacantEntry<'a, K, V, S = RandomState> { map: &'a DashMap<K, V, S>, key: K }
-impl<'a, K: Eq + Hash, V, S> OccupiedEntry<'a, K, V, S> {
-    pub fn key(&self) -> &K { &self.key }
-    pub fn get(&self) -> &V { &self.map.items()[self.idx].1 }
-    pub fn get_mut(&mut self) -> &mut V { &mut self.map.items_mut()[self.idx].1 }
-    pub fn insert(&mut self, v: V) -> V { std::mem::replace(self.get_mut(), v) }
-    pub fn remove(self) -> V { self.map.items_mut().remove(self.idx).1 }
-    pub fn into_ref(self) -> RefMut<'a, K, V> {
-        self.map.writers.set(self.map.writers.get() + 1);
-        let (k, v) = &mut self.map.items_mut()[self.idx];
-        RefMut { k, v, cnt: &self.map.writers }
-    }
-}
-impl<'a, K: Eq + Hash, V, S> VacantEntry<'a, K, V, S> {
-    pub fn key(&self) -> &K { &self.key }
-    pub fn insert(self, v: V) -> RefMut<'a, K, V> {
-        let items = self.map.items_mut();
-        items.push((self.key, v));
-        let idx = items.len() - 1;
-        self.map.writers.set(self.map.writers.get() + 1);
-        let (k, v) = &mut items[idx];
-        RefMut { k, v, cnt: &self.map.writers }
-    }
-}
+/// `entry()` result. Deliberately a plain struct (no enum holding the key): moving a `String` key through an
+/// enum payload made every later length read non-constant for CBMC (memcmp loops ran to the unwind bound).
+pub struct Entry<'a, K, V, S = RandomState> { map: &'a DashMap<K, V, S>, key: K, idx: usize, found: bool }
 impl<'a, K: Eq + Hash, V, S> Entry<'a, K, V, S> {
+    pub fn key(&self) -> &K { &self.key }
     pub fn or_default(self) -> RefMut<'a, K, V> where V: Default { self.or_insert_with(V::default) }
     pub fn or_insert(self, v: V) -> RefMut<'a, K, V> { self.or_insert_with(|| v) }
     pub fn or_insert_with(self, f: impl FnOnce() -> V) -> RefMut<'a, K, V> {
-        match self { Entry::Occupied(o) => o.into_ref(), Entry::Vacant(v) => v.insert(f()) }
+        let Entry { map, key, idx, found } = self;
+        let items = map.items_mut();
+        let i = if found { drop(key); idx } else { items.push((key, f())); items.len() - 1 };
+        map.writers.set(map.writers.get() + 1);
+        let (k, v) = &mut items[i];
+        RefMut { k, v, cnt: &map.writers }
     }
 }
 
@@ -120,24 +103,41 @@ impl<K: Eq + Hash, V, S> DashMap<K, V, S> {
     #[allow(clippy::mut_from_ref)]
     fn items_mut(&self) -> &mut Vec<(K, V)> { unsafe { &mut *self.items.get() } }
     pub fn guards_live(&self) -> (usize, usize) { (self.readers.get(), self.writers.get()) }
+    /// LOCK MONITOR. Real DashMap takes a shard write lock here: if this thread still holds ANY guard of the
+    /// same map (Ref / RefMut / Iter) the call deadlocks whenever the two keys share a shard. Forbidding the
+    /// nesting for all keys is the shard-independent statement of property C12.
+    #[inline(always)]
+    fn write_lock(&self) {
+        assert!(self.readers.get() == 0 && self.writers.get() == 0, "c12.lock.write_while_guard_of_same_map_is_live");
+    }
+    /// Real DashMap takes a shard read lock here: a live RefMut of the same map on this thread deadlocks it
+    /// (read-under-read is admitted by dashmap 6.1's RwLock and is not flagged).
+    #[inline(always)]
+    fn read_lock(&self) {
+        assert!(self.writers.get() == 0, "c12.lock.read_while_write_guard_of_same_map_is_live");
+    }
 
     pub fn len(&self) -> usize { self.items().len() }
     pub fn is_empty(&self) -> bool { self.items().is_empty() }
-    pub fn clear(&self) { self.items_mut().clear(); }
+    pub fn clear(&self) { self.write_lock(); self.items_mut().clear(); }
     pub fn contains_key<Q: ?Sized + Eq + Hash>(&self, key: &Q) -> bool where K: Borrow<Q> {
+        self.read_lock();
         self.items().iter().any(|(k, _)| k.borrow() == key)
     }
     pub fn get<Q: ?Sized + Eq + Hash>(&self, key: &Q) -> Option<Ref<'_, K, V>> where K: Borrow<Q> {
+        self.read_lock();
         let it = self.items().iter().find(|(k, _)| k.borrow() == key)?;
         self.readers.set(self.readers.get() + 1);
         Some(Ref { k: &it.0, v: &it.1, cnt: &self.readers })
     }
     pub fn get_mut<Q: ?Sized + Eq + Hash>(&self, key: &Q) -> Option<RefMut<'_, K, V>> where K: Borrow<Q> {
+        self.write_lock();
         let it = self.items_mut().iter_mut().find(|(k, _)| (*k).borrow() == key)?;
         self.writers.set(self.writers.get() + 1);
         Some(RefMut { k: &it.0, v: &mut it.1, cnt: &self.writers })
     }
     pub fn insert(&self, key: K, value: V) -> Option<V> {
+        self.write_lock();
         let items = self.items_mut();
         match items.iter().position(|(k, _)| *k == key) {
             Some(i) => Some(std::mem::replace(&mut items[i].1, value)),
@@ -145,23 +145,27 @@ impl<K: Eq + Hash, V, S> DashMap<K, V, S> {
         }
     }
     pub fn remove<Q: ?Sized + Eq + Hash>(&self, key: &Q) -> Option<(K, V)> where K: Borrow<Q> {
+        self.write_lock();
         let items = self.items_mut();
         let i = items.iter().position(|(k, _)| k.borrow() == key)?;
         Some(items.remove(i))
     }
     pub fn remove_if<Q: ?Sized + Eq + Hash>(&self, key: &Q, f: impl FnOnce(&K, &V) -> bool) -> Option<(K, V)> where K: Borrow<Q> {
+        self.write_lock();
         let items = self.items_mut();
         let i = items.iter().position(|(k, _)| k.borrow() == key)?;
         if f(&items[i].0, &items[i].1) { Some(items.remove(i)) } else { None }
     }
     pub fn entry(&self, key: K) -> Entry<'_, K, V, S> {
+        self.write_lock();
         match self.items().iter().position(|(k, _)| *k == key) {
-            Some(idx) => Entry::Occupied(OccupiedEntry { map: self, key, idx }),
-            None => Entry::Vacant(VacantEntry { map: self, key }),
+            Some(idx) => Entry { map: self, key, idx, found: true },
+            None => Entry { map: self, key, idx: 0, found: false },
         }
     }
-    pub fn retain(&self, mut f: impl FnMut(&K, &mut V) -> bool) { self.items_mut().retain_mut(|(k, v)| f(k, v)); }
+    pub fn retain(&self, mut f: impl FnMut(&K, &mut V) -> bool) { self.write_lock(); self.items_mut().retain_mut(|(k, v)| f(k, v)); }
     pub fn iter(&self) -> Iter<'_, K, V> {
+        self.read_lock();
         self.readers.set(self.readers.get() + 1);
         Iter { items: self.items().as_slice(), pos: 0, cnt: &self.readers }
     }
